@@ -54,6 +54,18 @@ def probe_fdt(inp: Dict[str, Any]) -> Dict[str, Any]:
     import seqm.MolecularDynamics as MD
 
     md, mol = _langevin(inp["names"], inp["dt"], inp["damp"], inp["temp"])
+    if inp.get("reconfigure"):
+        # the same driver object re-used with changed settings: the coefficients in force must follow the CURRENT attributes
+        import seqm.MolecularDynamics as MDm
+        md, mol = _langevin(inp["names"], inp["reconfigure"]["dt"], inp["reconfigure"]["damp"], inp["reconfigure"]["temp"])
+        md.timestep, md.damp, md.Temp = inp["dt"], inp["damp"], inp["temp"]
+        old_ = MDm.esdriver
+        MDm.esdriver = mdh.StubEngine
+        try:
+            with contextlib.redirect_stdout(io.StringIO()):
+                md.initialize(mol)
+        finally:
+            MDm.esdriver = old_
     c1 = float(md.langevin_c1)
     c2 = md.langevin_c2.numpy()[..., 0]
     minv = mol.mass_inverse.numpy()[..., 0]
@@ -267,6 +279,10 @@ def gen_cases(ctx: Ctx):
         dt = float(rng.choice([0.1, 0.5, 1.0]))
         cases.append(("fdt", {"names": [["h2o"], ["ch3cl", "h2"], ["sih4"]][i % 3], "dt": dt, "damp": dt / ratio, "temp": float(rng.choice([0.0, 100.0, 300.0, 2000.0])),
                               "seed": int(rng.integers(0, 10**6)), "napply": int(rng.integers(1, 6))}))
+    for i in range(4 if ctx.thorough else 2):
+        dt = float(rng.choice([0.25, 0.5, 1.0]))
+        cases.append(("fdt", {"names": ["h2o"], "dt": dt, "damp": float(dt / 10 ** rng.uniform(-3, 0.5)), "temp": 300.0, "seed": int(rng.integers(0, 10**6)), "stat": False,
+                              "reconfigure": {"dt": float(rng.choice([0.1, 2.0])), "damp": float(rng.choice([5.0, 500.0])), "temp": 77.0}}))
     cases.append(("mean_temperature", {"names": ["h2o"], "dt": 0.5, "damp": 5.0, "temp": 300.0, "steps": 6000 if ctx.thorough else 2500, "seed": int(rng.integers(0, 999))}))
     if ctx.thorough:
         cases.append(("mean_temperature", {"names": ["ch4"], "dt": 0.25, "damp": 2.0, "temp": 500.0, "steps": 8000, "seed": int(rng.integers(0, 999))}))
